@@ -21,6 +21,17 @@ dispatcher (exact / matching) when they are ordered the same way by creation
 *and* by their latest enable() - after a disable/enable cycle the statement
 does not say which of the two counts, so such pairs are unconstrained.  The
 relative order of an exact and a matching responder is unconstrained.
+
+Callbacks that act on the registry: a responder's function may free or disable
+*another* responder while the message is being dispatched ("kills").  The
+statement says disabled and freed responders are never invoked, so the target
+must not fire if the killer is demanded to run before it, must fire if it is
+demanded to run before the killer, and is *optional* when their relative
+order is unconstrained (`Model.last_optional`; callers then also stop
+extending the history, because the resulting state is not decided).
+
+Several responders may have been given the same function object (`shared`);
+that does not change anything in what has to happen.
 """
 
 from mc.oracles import oscpattern
@@ -40,23 +51,28 @@ class Responder:
         self.created = rank
         self.enabled_at = rank
         self.changes = 1            # life-cycle changes (creation = 1)
+        self.shared = False         # still has the function object it shares
+        self.kills = None           # None | [rid of the target, 'free'|'disable']
 
 
 class Model:
     def __init__(self):
         self.rs = []
         self.clock = 0
+        self.last_killed = []
+        self.last_optional = []
 
     def _tick(self):
         self.clock += 1
         return self.clock
 
     # ---- life cycle ---------------------------------------------------------
-    def create(self, path, matching, src, recv_port, tmpl):
+    def create(self, path, matching, src, recv_port, tmpl, shared=False):
         if not path.startswith('/'):
             path = '/' + path
         r = Responder(len(self.rs), path, matching, src, recv_port, tmpl,
                       self._tick())
+        r.shared = bool(shared)
         self.rs.append(r)
         return r
 
@@ -85,6 +101,18 @@ class Model:
     def replace_func(self, i):
         r = self.rs[i]
         r.ver = 1 - r.ver
+        r.shared = False
+        r.kills = None
+
+    def set_killer(self, i, j, how):
+        """Responder i gets a new function that frees / disables j."""
+        self.replace_func(i)
+        self.rs[i].kills = [j, how]
+
+    @staticmethod
+    def must_precede(x, y):
+        return x.matching == y.matching and x.created < y.created and \
+            x.enabled_at < y.enabled_at
 
     def cmd_period(self):
         """Responders do not persist beyond CmdPeriod.  What becomes of a
@@ -128,7 +156,7 @@ class Model:
         responders that must fire (in creation order); marks one-shots spent.
         Raises oscpattern.Ambiguous when the address is a pattern whose
         meaning the OSC specification does not decide."""
-        fired = []
+        cand = []
         for r in self.rs:
             if r.state != 'enabled':
                 continue
@@ -136,14 +164,38 @@ class Model:
                 continue
             if not self.filters_accept(r, list(args), sender, port):
                 continue
+            cand.append(r)
+        self.last_killed = []       # candidates removed before their turn
+        self.last_optional = []     # candidates that may or may not fire
+        killers = [r for r in cand if r.kills is not None and
+                   r.kills[0] != r.rid]
+        for k in killers:           # (callers offer at most one killer)
+            t = self.rs[k.kills[0]]
+            if t in cand and t.rid not in self.last_killed:
+                if self.must_precede(k, t):
+                    self.last_killed.append(t.rid)
+                elif not self.must_precede(t, k):
+                    self.last_optional.append(t.rid)
+        fired = []
+        for r in cand:
+            if r.rid in self.last_killed:
+                continue
             fired.append({'rid': r.rid, 'ver': r.ver,
                           'group': 'matching' if r.matching else 'exact',
-                          'created': r.created, 'enabled_at': r.enabled_at})
+                          'created': r.created, 'enabled_at': r.enabled_at,
+                          'optional': r.rid in self.last_optional,
+                          'shared': r.shared})
         for f in fired:
             r = self.rs[f['rid']]
             if r.oneshot:
                 r.state = 'spent'
                 r.changes += 1
+        for k in killers:
+            j, how = k.kills
+            if how == 'free':
+                self.free(j)
+            else:
+                self.disable(j)
         return fired
 
     # ---- bookkeeping -----------------------------------------------------------
@@ -153,7 +205,9 @@ class Model:
                        {r.enabled_at for r in self.rs})
         rk = {c: i for i, c in enumerate(ranks)}
         return [[r.path, r.matching, r.src, r.recv_port, r.tmpl, r.state,
-                 r.oneshot, r.ver, rk[r.created], rk[r.enabled_at]]
+                 r.oneshot, r.ver, rk[r.created], rk[r.enabled_at]] +
+                ([['shared', r.shared], ['kills', r.kills]]
+                 if r.shared or r.kills else [])
                 for r in self.rs]
 
     def nontrivial(self):
@@ -219,6 +273,24 @@ def selftest():
     m.free(2)
     m.cmd_period()
     assert ids('/a', [1], A) == [] and not m.live(0)
+    # a callback that frees / disables another responder
+    k = Model()
+    for _ in range(3):
+        k.create('/a', False, None, None, None, shared=True)    # 0 1 2
+    k.create('/a', True, None, None, None)                      # 3
+    k.set_killer(1, 2, 'disable')
+    f = k.deliver('/a', [1], A, 57120)
+    assert [x['rid'] for x in f] == [0, 1, 3] and k.last_killed == [2]
+    assert k.rs[2].state == 'disabled' and not k.rs[1].shared
+    k.enable(2)
+    k.set_killer(1, 0, 'free')          # the target runs before the killer
+    f = k.deliver('/a', [1], A, 57120)
+    assert [x['rid'] for x in f] == [0, 1, 2, 3] and k.last_killed == []
+    assert k.rs[0].state == 'freed' and k.last_optional == []
+    k.set_killer(1, 3, 'free')          # other dispatcher: order undecided
+    f = k.deliver('/a', [1], A, 57120)
+    assert [[x['rid'], x['optional']] for x in f] == \
+        [[1, False], [2, False], [3, True]] and k.last_optional == [3]
     return True
 
 
